@@ -119,7 +119,7 @@ fn draw_integers_contract(n: usize) {
 
 //# harness: fn=DefaultRandomCoin::draw_integers; label=bounded(num_values 0..=3; every power-of-two domain 4..2^63, every nonce, every digest); tier=quick; uses=draw_integers_contract; timeout=400
 #[cfg_attr(kani, kani::proof)]
-#[cfg_attr(kani, kani::unwind(6))]
+#[cfg_attr(kani, kani::unwind(10))]
 #[cfg_attr(kani, kani::stub(alloc::fmt::format, vs::fake_format))]
 pub fn k_c20_draw_integers() {
     draw_integers_contract(0);
@@ -149,9 +149,9 @@ pub fn k_c20_draw_element() {
             vcheck!("C20.draw.valid_element", e.inner() < 0xffffffff00000001);
             vcheck!("C20.draw.next_args", mk::call(k - 1).kind == mk::K_MERGE_INT && mk::call(k - 1).a == s0
                 && mk::call(k - 1).int == c0 + k as u64);
-            // the element is the canonical value of the first admissible digest (as_int is proved
-            // inverse to new in the Verus unit f64_core)
-            vcheck!("C20.draw.element_is_digest_value", e == F64::new(used));
+            // the element is new(le64(first admissible digest)); as_int(new(v)) == v is the Verus
+            // theorem C11.f64.as_int_new.identity
+            vcheck!("C20.draw.element_is_digest_value", e.inner() == F64::new(used).inner());
         },
         Err(_) => {
             vcheck!("C20.draw.no_spurious_error", false);
